@@ -19,7 +19,7 @@ ID = "C08"
 RULE = (
     "Generate an ADMG (2..4 nodes quick, ..5 thorough), an outcome conjunction and a non-empty condition conjunction of "
     "counterfactual events (disjoint keys) and two functional SCMs. Call idc_star. (1) A condition that is impossible by "
-    "the axiom of effectiveness (X_{..x..} = x') must be rejected with ValueError, never answered. (2) A returned "
+    "the axiom of effectiveness (X_{..x..} = x') or because it gives one random variable two values (Y_x = y, Y = y' with X no ancestor of Y) must be rejected with ValueError, never answered. (2) A returned "
     "expression, read with the events' own values (DESIGN.md 3.3), must equal P(outcomes & conditions)/P(conditions) for "
     "every base assignment in every model where P(conditions) > 0 (exact Fractions); Zero() is accepted only if the joint "
     "event has probability 0 in all drawn models; the only admissible exceptions are Unidentifiable and the ValueError of "
@@ -89,6 +89,21 @@ def effectiveness_violation(items) -> bool:
     return any(n == it["v"] and bool(s) != bool(it["val"]) for it in items for n, s in it["do"])
 
 
+def same_variable_two_values(g, items) -> bool:
+    """Two items that are the SAME random variable once causally irrelevant subscripts are dropped (Y_x = Y when X is not
+    an ancestor of Y) and that are given different values: impossible in every model."""
+    from .. import ref_ctf
+
+    seen = {}
+    for it in items:
+        if any(n == it["v"] for n, _ in it["do"]):
+            continue
+        key = ref_ctf.minimize(g, (it["v"], frozenset((n, bool(s)) for n, s in it["do"])))
+        if seen.setdefault(key, bool(it["val"])) != bool(it["val"]):
+            return True
+    return False
+
+
 def normaliser_problem(estimand, conditions) -> bool:
     """True if Expression.conditional(conditions) sums over a name that is not a free outcome variable of the estimand."""
     from y0.dsl import CounterfactualVariable, Probability
@@ -135,7 +150,7 @@ def check(case, ignore_regions=False) -> Outcome:
         out.labels = ["no-conditions(skipped)"]
         return out
     o_ev, c_ev = cfutil.build_event(outs), cfutil.build_event(conds)
-    impossible = effectiveness_violation(conds)
+    impossible = effectiveness_violation(conds) or same_variable_two_values(g, conds)
     # region by input (the ID* findings apply to the joint event); the rejection clause is checked regardless
     region = None if ignore_regions else c07.in_region(joint_case(case))
     if region and not (region in (open_regions("C07") | open_regions(ID)) or os.environ.get("VF_C07_ALL_REGIONS")):
